@@ -84,6 +84,7 @@ func runCheck(P *Prog, opt CheckOpts) int {
 	prop := opt.Prop
 	var known KnownFile
 	loadJSON(filepath.Join(P.VerifDir, "known_findings.json"), &known)
+	var deferredToThorough []string
 	var unclaimed []Unclaimed
 	loadJSON(filepath.Join(P.VerifDir, "unclaimed.json"), &unclaimed)
 	var unclRe []*regexp.Regexp
@@ -169,6 +170,23 @@ func runCheck(P *Prog, opt CheckOpts) int {
 			if opt.ObFilter != "" && !strings.Contains(o.Name, opt.ObFilter) {
 				continue
 			}
+			// "extra thorough-only <substring>": obligations the contract marks as too heavy for the quick tier
+			// (they need the long solver budget and case splitting); checked by the thorough tier, listed as
+			// deferred by the quick one
+			deferred := false
+			if opt.Tier != "thorough" {
+				for _, x := range c.Extra["thorough-only"] {
+					for _, a := range sxAtoms(x) {
+						if strings.Contains(o.Name, a) {
+							deferred = true
+						}
+					}
+				}
+			}
+			if deferred {
+				deferredToThorough = append(deferredToThorough, o.Name)
+				continue
+			}
 			items = append(items, &Result{O: o, T: t})
 		}
 	}
@@ -206,6 +224,7 @@ func runCheck(P *Prog, opt CheckOpts) int {
 	var knownHits []KnownFinding
 	var unclaimedUndischarged []string
 	var coverUnknown []string
+	sort.Strings(deferredToThorough)
 	var samples []map[string]interface{}
 	var slowest []*Result
 	for _, r := range items {
@@ -343,6 +362,7 @@ func runCheck(P *Prog, opt CheckOpts) int {
 			"undischarged":            viol,
 			"known_findings":          kh,
 			"unclaimed_undischarged":  unclaimedUndischarged,
+			"deferred_to_thorough_tier": deferredToThorough,
 			"abstractions":            nl,
 			"samples":                 samples,
 			"engine_errors":           transErrs,
